@@ -2,14 +2,13 @@
 """Automatic mutation campaign (dev tool): token-level mutants of the anchored source files that survive the repository's own
 suite are run against the checks of the properties anchored in that file; prints which survive the checks too (to be reviewed by hand:
 equivalent mutant or gap).   usage: automut.py <relpath under /repo> <n mutants> <seed> [props,comma]
-Needs exclusive use of /repo."""
+Works in its own scratch worktree (VERIF_REPO points the checks at it): /repo itself is never touched."""
 import io, json, os, random, re, subprocess, sys, tokenize
 
 rel, n, seed = sys.argv[1], int(sys.argv[2]), int(sys.argv[3])
 HERE = os.path.dirname(os.path.dirname(os.path.abspath(__file__)))
 props = sys.argv[4].split(",") if len(sys.argv) > 4 else sorted({p["id"] for p in map(json.loads, open(os.path.join(HERE, "properties.jsonl"))) if rel in p["anchors"]["files"]})
-path = os.path.join("/repo", rel)
-src = open(path).read()
+src = subprocess.run(["git", "-C", "/repo", "show", "HEAD:" + rel], capture_output=True, text=True, check=True).stdout
 SWAP = {"==": "!=", "!=": "==", "<": "<=", "<=": "<", ">": ">=", ">=": ">", "and": "or", "or": "and", "True": "False", "False": "True", "+": "-", "-": "+", "is": "is not"}
 toks = list(tokenize.generate_tokens(io.StringIO(src).readline))
 lines = src.splitlines(keepends=True)
@@ -29,10 +28,9 @@ for i, t in enumerate(toks):
         cands.append(("dropcall", toks[i - 1].start, toks[i + 2].end, ""))
 rng = random.Random(seed)
 rng.shuffle(cands)
-wt = "/tmp/vs/automut"
+wt = "/tmp/vs/automut-%d" % os.getpid()
 subprocess.run(["git", "-C", "/repo", "worktree", "remove", "--force", wt], capture_output=True)
 subprocess.run(["git", "-C", "/repo", "worktree", "add", "--detach", wt, "HEAD"], check=True, capture_output=True)
-assert subprocess.run(["git", "-C", "/repo", "status", "--porcelain", "--untracked-files=no"], capture_output=True, text=True).stdout == "", "repo dirty"
 
 
 def mutate(c):
@@ -61,19 +59,18 @@ try:
         if r.returncode != 0:
             continue        # killed by the repository's own tests: not interesting
         done += 1
-        open(path, "w").write(text)
         caught = []
         try:
             for p in props:
-                e = dict(os.environ, VERIF_EVIDENCE_DIR=os.path.join(HERE, ".work", "evidence-scratch"), VERIF_SOFT_SCALE="0.5")
+                e = dict(os.environ, VERIF_REPO=wt, VERIF_EVIDENCE_DIR=os.path.join(HERE, ".work", "evidence-scratch"), VERIF_SOFT_SCALE="0.5")
                 rr = subprocess.run([os.path.join(HERE, "check"), p, "quick"], capture_output=True, text=True, env=e)
                 if rr.returncode == 1:
                     caught.append(p)
                     break
+                if rr.returncode == 2:
+                    print('  (inconclusive: %s)' % p, flush=True)
         finally:
-            open(path, "w").write(src)
+            open(os.path.join(wt, rel), "w").write(src)
         print(("CAUGHT by " + caught[0]) if caught else "SURVIVES ALL", "::", desc, flush=True)
 finally:
-    open(path, "w").write(src)
     subprocess.run(["git", "-C", "/repo", "worktree", "remove", "--force", wt], capture_output=True)
-    subprocess.run(["git", "-C", "/repo", "status", "--short"])
